@@ -7,6 +7,9 @@ p=$(readlink -f "$1"); id=$2; tier=${3:-quick}
 scratch=$(mktemp -d /tmp/verif-mut-XXXXXX)
 trap 'rm -rf "$scratch"' EXIT INT TERM
 git clone -q /repo "$scratch/repo" || exit 2
+# a seeded defect made against an earlier commit of /repo (meta.json "base") is run against that commit
+base=$(python3 -c "import json,sys;print(json.load(open(sys.argv[1])).get('base',''))" "$(dirname "$p")/meta.json" 2>/dev/null)
+[ -n "$base" ] && git -C "$scratch/repo" checkout -q "$base"
 # generated autotools files are not tracked: take them from /repo so that no bootstrap is needed
 rsync -a --exclude .git --exclude '*.o' --exclude '*.lo' --exclude '*.la' --exclude .libs --exclude .deps --ignore-existing /repo/ "$scratch/repo/"
 git -C "$scratch/repo" apply "$p" || { echo "patch does not apply: $p"; exit 2; }
